@@ -7,6 +7,8 @@ whose operators build z3 terms.  Anything the interpreter cannot model raises `U
 from __future__ import annotations
 
 import ast
+
+import z3
 import builtins as _bi
 import functools
 import inspect
@@ -1744,6 +1746,17 @@ class Interp:
                 from .symseq import RepGrid
 
                 return RepGrid(v, sc.it.length())
+        # `x * 1 for x in grid` and the like: the element function is the identity on integers -> the sequence itself
+        from .symseq import Grid
+
+        if not g.ifs and isinstance(sc.it, Grid) and isinstance(g.target, ast.Name):
+            probe = self.ctx.fresh_int("probe")
+            try:
+                r = elem(probe)
+            except (Unsupported, PyExc):
+                r = None
+            if isinstance(r, SInt) and z3.is_true(z3.simplify(r.t == probe.t)):
+                return sc.it
         return MapSeq.make(self, sc.it, elem, is_list=isinstance(n, ast.ListComp))
 
     # calls ------------------------------------------------------------------
